@@ -1,8 +1,78 @@
-/- Line-protocol driver stub: answers every request line with "unimplemented". -/
+/-
+  Line-protocol driver for the TRANSLATED small functions of `Gen/Funcs.lean` (core-only).
+  One request line → exactly one answer line.  Requests: `<function> <int args…>` (bools as 0/1),
+  `const <name>`, `tab <table> <index>`.  Answers: decimal integers (bools as 0/1), `tc` answers
+  `<timed> <soft> <hard>`; anything unparsable answers `err`.
+-/
+import ChessVerif.Gen.Funcs
+open ChessVerif ChessVerif.Gen.Funcs
+
+def b2s (b : Bool) : String := if b then "1" else "0"
+def i2b (x : Int) : Bool := x != 0
+
+def constVal (n : String) : Option Int :=
+  [("MaxPlies", MaxPlies), ("Inf", Inf), ("Inv", Inv), ("White", White), ("Black", Black),
+   ("TimeSafetyMargin", TimeSafetyMargin), ("PredictedMoves", PredictedMoves), ("TimeInf", TimeInf),
+   ("k", k), ("HashMove", HashMove), ("Captures", Captures), ("CaptureRange", CaptureRange),
+   ("MaxHistory", MaxHistory), ("PVNode", PVNode), ("CutNode", CutNode), ("AllNode", AllNode),
+   ("params_HistAdjRange", params_HistAdjRange), ("params_HistAdjReduction", params_HistAdjReduction),
+   ("params_HistBonusLin", params_HistBonusLin), ("params_HistBonusMul", params_HistBonusMul),
+   ("params_IIRDepthLimit", params_IIRDepthLimit), ("params_LMRStart", params_LMRStart),
+   ("params_NMPDepthLimit", params_NMPDepthLimit), ("params_NMPDiffFactor", params_NMPDiffFactor),
+   ("params_NMPInit", params_NMPInit), ("params_RFPDepthLimit", params_RFPDepthLimit),
+   ("params_RFPScoreFactor", params_RFPScoreFactor), ("params_StandPatDelta", params_StandPatDelta),
+   ("params_WindowSize", params_WindowSize)].lookup n
+
+def tabVal (n : String) (i : Int) : Option Int :=
+  match n with
+  | "PieceValues" => if 0 ≤ i ∧ i < PieceValues.length then some (tbl PieceValues i) else none
+  | "log" => if 0 ≤ i ∧ i < logTbl.length then some (tbl logTbl i) else none
+  | "PieceValues.len" => some PieceValues.length
+  | "log.len" => some logTbl.length
+  | _ => none
+
+def callFn (cmd : String) (xs : List Int) : String :=
+  match cmd, xs with
+  | "clampS64", [x, a, b] => toString (clampS64 x a b)
+  | "clampS16", [x, a, b] => toString (clampS16 x a b)
+  | "clampS8", [x, a, b] => toString (clampS8 x a b)
+  | "absS64", [x] => toString (absS64 x)
+  | "absS16", [x] => toString (absS16 x)
+  | "signumS64", [x] => toString (signumS64 x)
+  | "signumS16", [x] => toString (signumS16 x)
+  | "isMate", [s] => b2s (isMate s)
+  | "tc", [w, b, wi, bi, mt, stm] =>
+      b2s (timedMode w b mt stm) ++ " " ++ toString (softLimit w b wi bi mt stm) ++ " " ++
+        toString (hardLimit w b wi bi mt stm)
+  | "quality", [c, g, d] => toString (quality c g d)
+  | "entryValue", [v, ply] => toString (entryValue v ply)
+  | "histAdd", [h, bonus] => toString (histAdd h bonus)
+  | "contAdd", [h, bonus] => toString (contAdd h bonus)
+  | "captAdd", [h, bonus] => toString (captAdd h bonus)
+  | "ipc", [wk, wn, wb, wr, wq, wp, bk, bn, bb, br, bq, bp] =>
+      b2s (invalidPieceCount (i2b wk) wn wb wr wq wp (i2b bk) bn bb br bq bp)
+  | "bufIx", [p] => toString (bufIx p)
+  | "lmr", [d, m, imp, nt] => toString (lmr d m (i2b imp) nt)
+  | "nextNodeType", [n, c] => toString (nextNodeType n c)
+  | _, _ => "err"
+
+def answer (line : String) : String :=
+  match (line.splitOn " ").filter (· ≠ "") with
+  | [] => "err"
+  | ["const", n] => match constVal n with | some v => toString v | none => "err"
+  | ["tab", n, i] =>
+      match i.toInt? with
+      | some iv => (match tabVal n iv with | some v => toString v | none => "err")
+      | none => "err"
+  | cmd :: args =>
+      match args.mapM String.toInt? with
+      | some xs => callFn cmd xs
+      | none => "err"
+
 partial def loop (h : IO.FS.Stream) (out : IO.FS.Stream) : IO Unit := do
   let line ← h.getLine
   if line.isEmpty then return ()
-  out.putStrLn "unimplemented"
+  out.putStrLn (answer (String.ofList (line.toList.filter (fun c => c != '\n' && c != '\r'))))
   out.flush
   loop h out
 
